@@ -55,6 +55,7 @@ UNREACHABLE = {
     'aggregate:generator-raises': 'per-dataset generators are stubs that raise only for negative requests (c18_nonneg)',
 }
 BR = collections.Counter()
+CACHE_HIST = []
 
 
 def _private(obj, *names):
@@ -1386,6 +1387,30 @@ def o_change_shg(ctx, case):
     if outs[0] != outs[1]:
         return ('after change_shg_mgr generate_signal_events(mean=%d, seed=%d) returns other events than a generator built on '
                 'the new source hypothesis groups (stale candidates)' % (n, case['seed']))
+    # history on one generator object: use / change_shg_mgr in random order; every operation must work with the candidates
+    # of the manager in force (observed through mu2flux, identified against fresh generators for both managers)
+    try:
+        (freshA, mgrA, _) = fx.make_mc_generator(cfg, case['groups'], mcs, lts)
+        vA, vB = float(freshA.mu2flux(2.0)), float(fresh.mu2flux(2.0))
+        if vA == vA and vB == vB and abs(vA - vB) > 1e-9 * max(abs(vA), abs(vB)):
+            hr = np.random.RandomState(case['seed'] % (2 ** 31))
+            ops = [['u', 'c0', 'c1'][int(x)] for x in hr.randint(0, 3, size=6)]
+            cur, seen_, want = 1, [], []          # `used` is on manager B (=1) after the change above
+            for op in ops:
+                if op != 'u':
+                    cur = int(op[1])
+                    used.change_shg_mgr(mgr2 if cur == 1 else mgrA)
+                v = float(used.mu2flux(2.0))
+                seen_.append(0 if abs(v - vA) <= 1e-9 * abs(vA) else 1 if abs(v - vB) <= 1e-9 * abs(vB) else -1)
+                want.append(cur)
+            CACHE_HIST.append((['c1'] + ops, [1] + seen_, dict(case)))
+            used.change_shg_mgr(mgr2)
+            if seen_ != want:
+                return ('history %r on one MCMultiDatasetSignalGenerator (c<m> = change_shg_mgr to manager m, u = mu2flux): the '
+                        'operations work with the candidates of managers %r, the managers in force are %r (stale candidates)' % (
+                            ops, seen_, want))
+    except Exception as e:  # noqa
+        return 'history of change_shg_mgr / mu2flux calls raised %s: %s' % (type(e).__name__, e)
     # implementation-private state, when it can be seen
     (a, b) = (_private(used, '_sig_candidates'), _private(fresh, '_sig_candidates'))
     if a is not None and b is not None and (len(a) != len(b) or a.tobytes() != b.tobytes()):
@@ -1680,6 +1705,15 @@ def _run(ctx):
         elif d:
             suspicious.append(('mc', c, d, None, stream_only))
     ctx.extra['mc_numerically_ambiguous_skipped'] = n_amb
+    # the cached candidate table as state: histories of change_shg_mgr / use on one object vs. the model's state machine
+    if CACHE_HIST:
+        answers_c = ctx.driver('C18', ['cache ' + ','.join(ops) for (ops, _, _) in CACHE_HIST])
+        for (ops, seen_, cc), a_ in zip(CACHE_HIST, answers_c):
+            ctx.count('change_shg:history-compared-with-model')
+            if ','.join(str(x) for x in seen_) != a_:
+                suspicious.append(('change_shg', cc, 'history %r: candidates in use per operation — implementation %r, model %s' % (
+                    ops, seen_, a_), a_, False))
+        del CACHE_HIST[:]
     # directed: a source batch size 0 is an error on both sides (ZeroDivisionError / model ERR)
     if mc_runs:
         (c0, run0, off0, k0) = mc_runs[0]
@@ -1699,7 +1733,7 @@ def _run(ctx):
 
     # ---------------- disagreements model / implementation: look for a failing input, else report the relation
     seen = set()
-    oracle_of = {'dist': 'dist', 'mc': 'inject', 'reloc': 'reloc', 'band': 'band'}
+    oracle_of = {'dist': 'dist', 'mc': 'inject', 'reloc': 'reloc', 'band': 'band', 'change_shg': 'change_shg'}
     n_stream = 0
     for (k, c, d, m, stream_only) in suspicious:
         if (k, stream_only) in seen:
@@ -1721,7 +1755,7 @@ def _run(ctx):
                           kind='correspondence', relation={'dist': 'error behaviour of the aggregation',
                                                            'mc': 'exact table, 1e-9 weights / mu2flux',
                                                            'reloc': 'angular distance <= 1e-9',
-                                                           'band': '1e-12'}[k],
+                                                           'band': '1e-12', 'change_shg': 'exact manager per operation'}[k],
                           model_output=m, signature='C18/corr/' + k, no_failing_input=True)
     ctx.extra['diagnostic_random_stream_disagreements'] = sum(1 for x in suspicious if x[4])
     ctx.extra['correspondence_disagreements'] = len(suspicious)
